@@ -173,16 +173,16 @@ Proof. exact sresize_ok. Qed.
 Print Assumptions string_resize_partial.
 
 (* ---- XalanDeque ------------------------------------------------------------------------------- *)
-(* Two deques of the SAME block size bs >= 1, every finite op sequence without operator[] writes
-   (push_back, pop_back, back, operator[] read, resize, clear, forward / reverse iteration, copy
+(* Two deques of the SAME block size bs >= 1, every finite op sequence
+   (push_back, pop_back, back, operator[] read and write, resize, clear, forward / reverse iteration, copy
    construction, operator=, self-assignment, swap, re-construction with an initial size): return
    values, size(), empty() and the element sequence seen through operator[] equal the list
    specification (std::deque).  Rests on the block invariant: all blocks but the last are full, no
    indexed block is empty, free blocks are empty. *)
-Theorem deque_refines_list : forall bs ops, 1 <= bs -> forallb dop_ok ops = true ->
+Theorem deque_refines_list : forall bs ops, 1 <= bs ->
   drun (mkds (new_deq bs) (new_deq bs) false) ops = dlrun linit ops.
 Proof.
-  intros. apply deque_refines_list_lemma; [unfold drel; simpl; auto | | assumption].
+  intros. apply deque_refines_list_lemma; [unfold drel; simpl; auto |].
   split; [apply new_deq_ok; assumption | split; [apply new_deq_ok; assumption | reflexivity]].
 Qed.
 Print Assumptions deque_refines_list.
@@ -206,13 +206,13 @@ Print Assumptions deque_block_recycling.
    exchanges the block vectors but not the const m_blockSize.  Witness: 12 elements in a deque of
    block size 10 swapped into one of block size 3: size() = 5. *)
 Definition deque_any_block_sizes_statement : Prop :=
-  forall bs0 bs1 ops, 1 <= bs0 -> 1 <= bs1 -> forallb dop_ok ops = true ->
+  forall bs0 bs1 ops, 1 <= bs0 -> 1 <= bs1 ->
     drun (mkds (new_deq bs0) (new_deq bs1) false) ops = dlrun linit ops.
 
 Theorem deque_swap_refuted : ~ deque_any_block_sizes_statement.
 Proof.
   intros H.
-  specialize (H 10 3 (map DPush [1;2;3;4;5;6;7;8;9;10;11;12] ++ [DSwap; DSel true]) ltac:(lia) ltac:(lia) eq_refl).
+  specialize (H 10 3 (map DPush [1;2;3;4;5;6;7;8;9;10;11;12] ++ [DSwap; DSel true]) ltac:(lia) ltac:(lia)).
   vm_compute in H. discriminate H.
 Qed.
 Print Assumptions deque_swap_refuted.
